@@ -162,7 +162,7 @@ func runC13(c *Ctx) {
 					// any way of writing code ++ slot
 					if parts, ok := w.byteSeq(fn, call.Common().Args[1], 0); ok && len(parts) == 2 && parts[0].one != nil && parts[1].many != nil {
 						_, isK := intConst(w.canon(fn, parts[0].one))
-						me := w.Expr(parts[1].many)
+						me := w.Expr(w.canon(fn, parts[1].many))
 						okReq = isK && (me == "p1" || me == "conv<[]byte>(p1)")
 					}
 				}
@@ -701,6 +701,51 @@ func runC13(c *Ctx) {
 					}
 				}
 			}
+			// ... or walked in place: line, rest, more = strings.Cut(rest, "\n") while more, starting from the whole output
+			var cutIter *ssa.Call
+			if ex, ok := line.(*ssa.Extract); ok && ex.Index == 0 && !okLine {
+				if cc, ok := ex.Tuple.(*ssa.Call); ok && calleeName(cc) == "strings.Cut" && len(cc.Call.Args) == 2 {
+					sep, isSep := strConst(cc.Call.Args[1])
+					phi, isPhi := throughCell(strip(cc.Call.Args[0])).(*ssa.Phi)
+					if isSep && sep == "\n" && isPhi {
+						fed, started, other := false, false, false
+						for i, e := range phi.Edges {
+							e = throughCell(strip(e))
+							back := phi.Block().Dominates(phi.Block().Preds[i])
+							if r, isEx := e.(*ssa.Extract); isEx && r.Tuple == ssa.Value(cc) && r.Index == 1 && back {
+								fed = true
+							} else if fromTool(e) && !back {
+								started = true
+							} else {
+								other = true
+							}
+						}
+						fed = fed && !other
+						// the loop goes on exactly while the last cut found a separator
+						cont := false
+						if iff, isIf := phi.Block().Instrs[len(phi.Block().Instrs)-1].(*ssa.If); isIf {
+							if mp, isMp := throughCell(strip(iff.Cond)).(*ssa.Phi); isMp && mp.Block() == phi.Block() {
+								t, m, o := false, false, false
+								for i, e := range mp.Edges {
+									e = throughCell(strip(e))
+									back := mp.Block().Dominates(mp.Block().Preds[i])
+									if k, isK := e.(*ssa.Const); isK && k.Value != nil && k.Value.String() == "true" && !back {
+										t = true
+									} else if r, isEx := e.(*ssa.Extract); isEx && r.Tuple == ssa.Value(cc) && r.Index == 2 && back {
+										m = true
+									} else {
+										o = true
+									}
+								}
+								cont = t && m && !o && phi.Block().Succs[0] == cc.Block()
+							}
+						}
+						if fed && started && cont {
+							okLine, cutIter = true, cc
+						}
+					}
+				}
+			}
 			c.Check(okLine, "R4.slots", "ListSlots|every line of the tool output in order", w.Pos(call.Pos()), "for _, line := range strings.Split(output, \"\\n\")", "lines are not taken in order from the tool's output split on newlines")
 			// prefix test
 			isHasPrefix := func(v ssa.Value) bool {
@@ -740,6 +785,9 @@ func runC13(c *Ctx) {
 			var header *ssa.BasicBlock
 			if ld, ok := line.(*ssa.UnOp); ok {
 				header = ld.Block()
+			}
+			if cutIter != nil {
+				header = cutIter.Block()
 			}
 			for l := range f.Primary(call.Block()) {
 				if header != nil && f.Primary(header)[l] {
